@@ -31,8 +31,11 @@ CLAIMS = {
             "from the encoder's circle / spinner / hold line equals the written one up to what the format cannot carry "
             "(carry_object), in every parser state; the shape hypotheses are discharged for decoded maps "
             "(C02_decoded_objects_shape, C02_decoded_object_ok): circles need only not-D30; spinners and holds need not-D30, "
-            "not-D26 and the time condition, proved for integer times only (C02_times_ok_partial; 3.4e6 searched cases of "
-            "fractional times found no failure). T02d: collect_samples changes only the sample points; control points of "
+            "not-D26 and the time condition fl(fl(start + d) - start) = d, which is FALSE in general (C02_times_ok_refuted, "
+            "new finding D33: start 2^-43, end 1024 + 2^-42 changes the duration by one ulp; confirmed on the crate) and "
+            "PROVED whenever end - start is a binary64 number (C02_times_ok_exact_difference; binary grids "
+            "C02_times_ok_grid / _grid21, whole milliseconds) or the written end is the end that was read "
+            "(C02_times_ok_of_end). T02d: collect_samples changes only the sample points; control points of "
             "every decoded map are sorted, within their clamps and the parse limits (C02_decoded_timing_invariants); the "
             "velocity fixed point -100/sv -> 100/-x is PROVED on the decoder's image (C02_three_divisions over the reals: "
             "RN(100/RN(100/S)) = S for S = RN(100/x) in [2^-4, 2^4]; C02_decoded_svs_round_trip); "
@@ -42,10 +45,25 @@ CLAIMS = {
             "(C02_slider_round_trip_partial): a decoded slider outside the classes is re-read with the same start, position, "
             "control points, repeat and node count, and THE SAME CURVE (the written length is the curve's distance and "
             "requesting the natural length keeps the natural curve, exact since the D9 repair); velocity is a function of "
-            "data shown equal. T02a also composed with the framing theorem: decoding the lines of an encoding gives the "
-            "simple sections of read_back m (C02_decode_of_encoding_simple_sections). NOT mechanised: names/banks of "
-            "slider-node samples (D31), composing the timing and hit-object sections with the framing theorem, spinner/hold "
-            "time condition for fractional times - covered by the `enc` correspondence (decoder, curve, slider-event and encoder models composed, rendered with Rust's Display, "
+            "data shown equal; C02_slider_round_trip_full gives every field of the re-read slider (mode, new combo, own "
+            "samples, node samples); names and banks of a node without file name survive "
+            "(C02_slider_node_samples_round_trip; a file name on a node is D31: C02_slider_node_file_name_lost). "
+            "COMPOSED with the framing theorem (C05) and the decoder delegation (C07) into ONE statement about decoding "
+            "the lines of an encoding, C02_round_trip_decoded_map / C02_round_trip_chronological: for every decoded map "
+            "outside the recorded classes (D23; rt_classes = D8/D28, D27, D12, D26/D32; obj_classes = D30, D26, D33, "
+            "D13/D17/consecutive Catmull, D21, D22) whose accepted hit-object lines are chronological, if the second "
+            "decode succeeds its simple sections are those of read_back m (T02a), its timing points and the three "
+            "timelines are those of m (C02_decode_of_encoding_timing), and its hit objects correspond one to one "
+            "(final_rel_decoded: circles/spinners/holds up to carry_object; sliders with the same start, position, "
+            "control points, repeat/node count, curve, mode, new combo, own-sample and node-sample names and banks); "
+            "the map-level processing of the second decode is shown to reproduce the stored values (sort = identity "
+            "on the sorted list, flags re-derived are set - C02_combo_chain_of_chronological_input -, SamplePoint::apply "
+            "touches only what carry erases; node / own-sample image invariants C02_decoded_slider_nodes_image); "
+            "slider velocities of the second decode equal (C02_round_trip_velocities); non-vacuity on a decoded map with "
+            "all four object kinds (C02_round_trip_example). NOT mechanised: a slider combo offset without the new-combo "
+            "bit, the time condition between the proved classes (exact difference, incl. Sterbenz start/2 <= end <= "
+            "2*start) and D33 "
+            "- covered by the `enc` correspondence (decoder, curve, slider-event and encoder models composed, rendered with Rust's Display, "
             "compared with encode_to_string byte for byte) and by the oracle. D2 and D16 were found by this package's "
             "checks and repaired (4262585, d78b06a). Oracle: field-by-field comparison of decode(x) and "
             "decode(encode(decode(x))) for exactly the items the property lists, timelines sampled at all control-point "
